@@ -610,21 +610,71 @@ def r20_6(rep, M, rid):
             return a + b if a is not None and b is not None else None
         return None
     rows = mats[0].args[0].elts
+    # exact polynomial of every entry in the symbols x0, x1, x2 (coordinate columns relative to the centre) and w (weights)
+    wnames = {nm for nm, v in defs.items() if isinstance(v, ast.Call) and ((isinstance(v.func, ast.Attribute) and v.func.attr == "get_masses")
+                                                                       or (resolver(M, fq)(v.func) or "") in ("numpy.ones", "numpy.ones_like"))}
+
+    def poly(e, depth=0):
+        if depth > 12:
+            return None
+        if isinstance(e, ast.Name):
+            if e.id in col:
+                return {(f"x{col[e.id]}",): 1}
+            if e.id in wnames:
+                return {("w",): 1}
+            d0 = defs.get(e.id)
+            return poly(d0, depth + 1) if d0 is not None else None
+        if isinstance(e, ast.Constant) and isinstance(e.value, (int, float)):
+            return {(): e.value}
+        if isinstance(e, ast.Call) and (resolver(M, fq)(e.func) or "") == "numpy.sum" and e.args:
+            return poly(e.args[0], depth + 1)
+        if isinstance(e, ast.Call) and isinstance(e.func, ast.Attribute) and e.func.attr == "sum" and not e.args:
+            return poly(e.func.value, depth + 1)
+        if isinstance(e, ast.UnaryOp) and isinstance(e.op, ast.USub):
+            a0 = poly(e.operand, depth + 1)
+            return None if a0 is None else {k: -v for k, v in a0.items()}
+        if isinstance(e, ast.BinOp) and isinstance(e.op, ast.Pow) and isinstance(e.right, ast.Constant) and e.right.value == 2:
+            return poly(ast.BinOp(left=e.left, op=ast.Mult(), right=e.left), depth + 1)
+        if isinstance(e, ast.BinOp) and isinstance(e.op, (ast.Add, ast.Sub, ast.Mult)):
+            a0, b0 = poly(e.left, depth + 1), poly(e.right, depth + 1)
+            if a0 is None or b0 is None:
+                return None
+            if isinstance(e.op, ast.Mult):
+                r0 = {}
+                for k1, v1 in a0.items():
+                    for k2, v2 in b0.items():
+                        k = tuple(sorted(k1 + k2))
+                        r0[k] = r0.get(k, 0) + v1 * v2
+                return {k: v for k, v in r0.items() if v}
+            sg = 1 if isinstance(e.op, ast.Add) else -1
+            r0 = dict(a0)
+            for k, v in b0.items():
+                r0[k] = r0.get(k, 0) + sg * v
+            return {k: v for k, v in r0.items() if v}
+        return None
     for r in range(3):
         for c in range(3):
-            terms = columns_of(rows[r].elts[c])
-            if terms is None:
+            got = poly(rows[r].elts[c])
+            if got is None:
                 raise AnalysisError(f"get_moments_of_inertia: entry ({r + 1},{c + 1}) `{norm(rows[r].elts[c])}` not understood")
-            got = sorted(sorted(t) for t in terms)
             others = sorted(set(range(3)) - {r})
-            want = [[r, c]] if r != c else [[others[0]] * 2, [others[1]] * 2]
-            want = sorted(sorted(t) for t in want)
+            want = {tuple(sorted(("w", f"x{r}", f"x{c}"))): -1} if r != c else {tuple(sorted(("w", f"x{o}", f"x{o}"))): 1 for o in others}
+            shown = " + ".join(f"{v}*{'*'.join(k)}" for k, v in sorted(got.items()))
             if got == want:
-                rep.ok(rid, f"get_moments_of_inertia: tensor entry ({r + 1},{c + 1}) = `{norm(rows[r].elts[c])}` multiplies the coordinates {want}")
+                rep.ok(rid, f"get_moments_of_inertia: tensor entry ({r + 1},{c + 1}) = sum of {shown}")
             else:
-                rep.violation(rid, f"get_moments_of_inertia: tensor entry ({r + 1},{c + 1})", f"`{norm(rows[r].elts[c])}` sums products of coordinate columns {got}; the inertia "
-                              f"tensor needs {want} there ({'-sum w x_r x_c' if r != c else 'sum w (x_a^2 + x_b^2)'}): the matrix given to eigh is not the inertia tensor, so "
-                              "eigenvalues and axes are wrong", M.where(fq, rows[r].elts[c]))
+                rep.violation(rid, f"get_moments_of_inertia: tensor entry ({r + 1},{c + 1})", f"`{norm(rows[r].elts[c])}` is the sum of {shown or '(not a polynomial)'}; the inertia "
+                              f"tensor has {'-w*x_r*x_c' if r != c else 'w*(x_a^2 + x_b^2) with a, b the other two axes'} there: the matrix given to eigh is not the inertia "
+                              "tensor, so eigenvalues and axes are wrong", M.where(fq, rows[r].elts[c]))
+    # the coordinates are taken relative to the centre: positions - centre
+    rel = next((v for v in defs.values() if isinstance(v, ast.BinOp) and any(isinstance(x, ast.Name) and defs.get(x.id) is not None and isinstance(defs[x.id], ast.Call)
+                                                                           and isinstance(defs[x.id].func, ast.Attribute) and defs[x.id].func.attr == "get_positions"
+                                                                           for x in (v.left, v.right))), None)
+    if rel is not None:
+        if isinstance(rel.op, ast.Sub) and isinstance(rel.left, ast.Name) and isinstance(defs.get(rel.left.id), ast.Call) and defs[rel.left.id].func.attr == "get_positions":
+            rep.ok(rid, f"get_moments_of_inertia: coordinates relative to the centre (`{norm(rel)}`)")
+        else:
+            rep.violation(rid, f"get_moments_of_inertia: `{norm(rel)}`", "the coordinates entering the tensor are not positions minus the centre", M.where(fq, rel))
 
 
 def run(rep, ctx):
